@@ -50,4 +50,290 @@ theorem C07_parse_no_user (ty sub : Str) (u : UrlRec) (a : RemoteAddr)
   obtain ⟨u', _, e, huser, _⟩ := parseRemoteWith_some ty sub _ a h
   cases e; exact huser
 
+/-! ## case-insensitivity of source type and scheme -/
+
+/-- **C07_case.** Source type and URL scheme are lower-cased (ASCII) before anything is looked
+up: `ParseRemoteSource` cannot tell `GIT::HTTPS://…` from `git::https://…`. -/
+theorem C07_case (ty sub : Str) (u : UrlRec) :
+    parseRemoteWith ty sub (some u) =
+      parseRemoteWith (toLowerAscii ty) sub (some { u with scheme := toLowerAscii u.scheme }) := by
+  unfold parseRemoteWith
+  simp only [toLowerAscii_idem, toLowerAscii_eq_nil]
+
+/-! ## completeness on the documented grammar -/
+
+/-- **C07_complete_partial.** Conversely, every address that follows the documented grammar is
+accepted by the constructor `MakeRemoteSource`, provided the URL carries no user information;
+type, sub-path, scheme, host, path and query are stored as given.  (`_partial`: the URL parser
+itself — which strings `url.Parse` turns into which `UrlRec` — is outside the model; this is
+completeness of everything the package does with the parser's result.) -/
+theorem C07_complete_partial (ty : Str) (u : UrlRec) (sub : Str)
+    (g : Grammar { sourceType := ty, url := u, subPath := sub }) (huser : u.hasUser = false) :
+    ∃ a, makeRemote ty u sub = some a ∧ a.sourceType = ty ∧ a.subPath = sub ∧
+      a.url.scheme = u.scheme ∧ a.url.host = u.host ∧ a.url.path = u.path ∧
+      a.url.query = u.query := by
+  obtain ⟨u', hcore, hu'⟩ := makeRemoteCore_complete ty u sub g
+  refine ⟨{ sourceType := ty, url := normaliseRaw u', subPath := sub }, ?_, rfl, rfl, ?_⟩
+  · unfold makeRemote
+    rw [normalizeSubpath_of_validSub sub g.sub_ok]
+    simp only [huser, Bool.false_eq_true, and_false, if_false]
+    exact hcore
+  · obtain ⟨h1, _, h3, _, _, _, h7, h8⟩ := normaliseRaw_fields u'
+    simp only [h1, h3, h7, h8]
+    rcases hu' with e | e <;> subst e <;> exact ⟨rfl, rfl, rfl, rfl⟩
+
+/-- **C07_complete_parse_partial.** The same for the parser route, given what `url.Parse`
+returned: the source-type prefix is omitted when it equals the scheme (writing it is an error,
+`C07_redundant_prefix`) and written otherwise. -/
+theorem C07_complete_parse_partial (ty : Str) (u : UrlRec) (sub : Str)
+    (g : Grammar { sourceType := ty, url := u, subPath := sub }) (huser : u.hasUser = false)
+    (hqe : u.queryErr = false) :
+    ∃ a, parseRemoteWith (if ty = u.scheme then [] else ty) sub (some u) = some a ∧
+      a.sourceType = ty ∧ a.subPath = sub ∧ a.url.scheme = u.scheme ∧ a.url.host = u.host ∧
+      a.url.path = u.path ∧ a.url.query = u.query := by
+  obtain ⟨u', hcore, hu'⟩ := makeRemoteCore_complete ty u sub g
+  have hty : ty = "git".toList ∨ ty = "http".toList ∨ ty = "https".toList := g.type_ok
+  have hsch : u.scheme = "https".toList ∨ u.scheme = "ssh".toList := by
+    rcases g.type_ok with h | h
+    · exact g.git_scheme h
+    · exact Or.inl (g.archive_scheme h)
+  have hne : u.scheme ≠ [] := by rcases hsch with e | e <;> rw [e] <;> decide
+  have hlow : toLowerAscii u.scheme = u.scheme := by rcases hsch with e | e <;> rw [e] <;> decide
+  have hlowty : toLowerAscii ty = ty := by rcases hty with e | e | e <;> rw [e] <;> decide
+  have htyne : ty ≠ [] := by rcases hty with e | e | e <;> rw [e] <;> decide
+  refine ⟨{ sourceType := ty, url := normaliseRaw u', subPath := sub }, ?_, rfl, rfl, ?_⟩
+  · rw [parseRemoteWith_lowerScheme _ sub u hne hlow huser hqe]
+    by_cases h : ty = u.scheme
+    · simp only [h, if_true]
+      have : toLowerAscii [] = ([] : Str) := rfl
+      simp only [this, if_true]
+      rw [← h]; exact hcore
+    · simp only [h, if_false, hlowty, htyne]
+      exact hcore
+  · obtain ⟨h1, _, h3, _, _, _, h7, h8⟩ := normaliseRaw_fields u'
+    simp only [h1, h3, h7, h8]
+    rcases hu' with e | e <;> subst e <;> exact ⟨rfl, rfl, rfl, rfl⟩
+
+/-- writing the source type when it equals the scheme is rejected
+("don't specify redundant … source type") -/
+theorem C07_redundant_prefix (ty sub : Str) (u : UrlRec) (h : toLowerAscii ty = toLowerAscii u.scheme)
+    (hne : ty ≠ []) : parseRemoteWith ty sub (some u) = none := by
+  unfold parseRemoteWith
+  have : toLowerAscii ty ≠ [] := fun e => hne ((toLowerAscii_eq_nil ty).mp e)
+  simp only [h] at this ⊢
+  simp [this]
+
+/-- the URL record `url.Parse` yields for a plain ASCII URL `scheme://host/path?query` without
+user information, fragment or escapes (`rawQuery` is the query as written, `tgzQuery` its
+re-encoding with `archive=tgz`) -/
+def refUrl (scheme host path : Str) (query : List (Str × List Str)) (rawQuery tgzQuery : Str) : UrlRec :=
+  { scheme := scheme, opaq := [], hasUser := false, host := host, path := path, rawPath := [],
+    forceQuery := false, rawQuery := rawQuery, fragment := [], rawFragment := [],
+    query := query, queryErr := false, escapedPath := path, escapedFragment := [],
+    tgzQuery := tgzQuery }
+
+theorem normaliseRaw_refUrl (s h p : Str) (q : List (Str × List Str)) (rq tq : Str) :
+    normaliseRaw (refUrl s h p q rq tq) = refUrl s h p q rq tq := by
+  simp [normaliseRaw, refUrl]
+
+/-- **C07_complete_ref_git.** `git::scheme://host/path?ref=…//sub` with scheme `https` or `ssh`,
+at most the one query argument `ref`, and any valid sub-path is accepted — by the parser route and
+by the constructor — and stored exactly as given. -/
+theorem C07_complete_ref_git (scheme host path : Str) (q : List (Str × List Str)) (rq tq sub : Str)
+    (hs : scheme = "https".toList ∨ scheme = "ssh".toList)
+    (hq : ∀ kv ∈ q, kv.1 = "ref".toList ∧ kv.2.length ≤ 1) (hsub : ValidSub sub) :
+    parseRemoteWith "git".toList sub (some (refUrl scheme host path q rq tq)) =
+        some { sourceType := "git".toList, url := refUrl scheme host path q rq tq, subPath := sub } ∧
+    makeRemote "git".toList (refUrl scheme host path q rq tq) sub =
+        some { sourceType := "git".toList, url := refUrl scheme host path q rq tq, subPath := sub } := by
+  have hcore := makeRemoteCore_git (refUrl scheme host path q rq tq) sub hs hq
+  rw [normaliseRaw_refUrl] at hcore
+  constructor
+  · have hne : (refUrl scheme host path q rq tq).scheme ≠ [] := by
+      show scheme ≠ []; rcases hs with e | e <;> rw [e] <;> decide
+    have hlow : toLowerAscii (refUrl scheme host path q rq tq).scheme =
+        (refUrl scheme host path q rq tq).scheme := by
+      show toLowerAscii scheme = scheme; rcases hs with e | e <;> rw [e] <;> decide
+    rw [parseRemoteWith_lowerScheme _ sub _ hne hlow rfl rfl]
+    have h1 : toLowerAscii "git".toList = "git".toList := by decide
+    have h2 : ¬ "git".toList = (refUrl scheme host path q rq tq).scheme := by
+      show ¬ "git".toList = scheme; rcases hs with e | e <;> rw [e] <;> decide
+    simp only [h1, h2, if_false, show ¬ "git".toList = ([] : Str) by decide]
+    exact hcore
+  · unfold makeRemote
+    rw [normalizeSubpath_of_validSub sub hsub]
+    simp only [refUrl, Bool.false_eq_true, and_false, if_false]
+    exact hcore
+
+/-- **C07_complete_ref_suffix.** `https://host/path.tar.gz` / `….tgz` without `archive` and
+`checksum` arguments and with any valid sub-path is accepted and stored exactly as given. -/
+theorem C07_complete_ref_suffix (host path : Str) (q : List (Str × List Str)) (rq tq sub : Str)
+    (ha : valuesOf q "archive".toList = []) (hc : valuesOf q "checksum".toList = [])
+    (hsuf : hasSuffix path ".tar.gz".toList = true ∨ hasSuffix path ".tgz".toList = true)
+    (hsub : ValidSub sub) :
+    parseRemoteWith [] sub (some (refUrl "https".toList host path q rq tq)) =
+        some { sourceType := "https".toList, url := refUrl "https".toList host path q rq tq, subPath := sub } ∧
+    makeRemote "https".toList (refUrl "https".toList host path q rq tq) sub =
+        some { sourceType := "https".toList, url := refUrl "https".toList host path q rq tq, subPath := sub } := by
+  have hp := prepareHttp_complete_suffix (refUrl "https".toList host path q rq tq) rfl
+    (by rw [← valuesOf_eq_lookupQ]; exact hc) (by rw [← valuesOf_eq_lookupQ]; exact ha) hsuf
+  have hcore := makeRemoteCore_http "https".toList _ _ sub (Or.inr rfl) hp
+  rw [normaliseRaw_refUrl] at hcore
+  constructor
+  · rw [parseRemoteWith_lowerScheme _ sub _ (show "https".toList ≠ [] by decide)
+      (show toLowerAscii "https".toList = "https".toList by decide) rfl rfl]
+    simp only [show toLowerAscii ([] : Str) = [] from rfl, if_true]
+    exact hcore
+  · unfold makeRemote
+    rw [normalizeSubpath_of_validSub sub hsub]
+    simp only [refUrl, Bool.false_eq_true, and_false, if_false]
+    exact hcore
+
+/-- **C07_complete_ref_archive.** `https://host/path?archive=tgz` (or `tar.gz`), no `checksum`,
+any valid sub-path: accepted, and stored with the query normalised to `archive=tgz`. -/
+theorem C07_complete_ref_archive (host path : Str) (q : List (Str × List Str)) (rq tq sub v : Str)
+    (ha : valuesOf q "archive".toList = [v]) (hv : v = "tar.gz".toList ∨ v = "tgz".toList)
+    (hc : valuesOf q "checksum".toList = []) (hsub : ValidSub sub) :
+    parseRemoteWith [] sub (some (refUrl "https".toList host path q rq tq)) =
+        some { sourceType := "https".toList, url := refUrl "https".toList host path q tq tq, subPath := sub } ∧
+    makeRemote "https".toList (refUrl "https".toList host path q rq tq) sub =
+        some { sourceType := "https".toList, url := refUrl "https".toList host path q tq tq, subPath := sub } := by
+  have hp := prepareHttp_complete_archive (refUrl "https".toList host path q rq tq) v rfl
+    (by rw [← valuesOf_eq_lookupQ]; exact hc) (by rw [← valuesOf_eq_lookupQ]; exact ha) hv
+  have hcore := makeRemoteCore_http "https".toList _ _ sub (Or.inr rfl) hp
+  have e : ({ refUrl "https".toList host path q rq tq with
+      rawQuery := (refUrl "https".toList host path q rq tq).tgzQuery } : UrlRec) =
+      refUrl "https".toList host path q tq tq := rfl
+  rw [e, normaliseRaw_refUrl] at hcore
+  constructor
+  · rw [parseRemoteWith_lowerScheme _ sub _ (show "https".toList ≠ [] by decide)
+      (show toLowerAscii "https".toList = "https".toList by decide) rfl rfl]
+    simp only [show toLowerAscii ([] : Str) = [] from rfl, if_true]
+    exact hcore
+  · unfold makeRemote
+    rw [normalizeSubpath_of_validSub sub hsub]
+    simp only [refUrl, Bool.false_eq_true, and_false, if_false]
+    exact hcore
+
+/-! ## the front end: host shorthands -/
+
+/-- **C07_front_shorthand.** `github.com/org/repo` and `gitlab.com/org/repo` (organisation and
+repository non-empty, without `/`, `?`, newline) are rewritten to the git source
+`git::https://host/org/repo.git` — `.git` is appended unless the URL already ends in `git`
+(`withDotGit`) — with an empty sub-path. -/
+theorem C07_front_shorthand (host org repo : Str) (hh : IsShortHost host) (ho : ShortPart org)
+    (hr : ShortPart repo) :
+    remoteFront (host ++ '/' :: (org ++ '/' :: repo)) =
+      .url "git".toList (withDotGit ("https://".toList ++ (host ++ '/' :: (org ++ '/' :: repo)))) [] := by
+  obtain ⟨last, hl, hw⟩ := withDotGit_shape host org repo hr
+  obtain ⟨h1, _, h3⟩ := front_of_expanded host org last [] hh ho hl (by simp)
+  unfold remoteFront
+  rw [expandShorthands_short host _ _ hh (shorthand_hit3 host org repo hh ho hr), hw]
+  simp only [h1, h3]
+  rfl
+
+/-- **C07_front_shorthand_sub.** Further path elements become the sub-path, which must
+normalise (`github.com/org/repo/../x` is an error). -/
+theorem C07_front_shorthand_sub (host org repo sub : Str) (hh : IsShortHost host) (ho : ShortPart org)
+    (hr : ShortPart repo) (hsub : '?' ∉ sub) :
+    remoteFront (host ++ '/' :: (org ++ '/' :: (repo ++ '/' :: sub))) =
+      match normalizeSubpath sub with
+      | none => .error
+      | some s => .url "git".toList (withDotGit ("https://".toList ++ (host ++ '/' :: (org ++ '/' :: repo)))) s := by
+  obtain ⟨last, hl, hw⟩ := withDotGit_shape host org repo hr
+  obtain ⟨_, h2, h3⟩ := front_of_expanded host org last sub hh ho hl hsub
+  unfold remoteFront
+  rw [expandShorthands_short host _ _ hh (shorthand_hit4 host org repo sub hh ho hr), hw]
+  simp only [h2, h3]
+  cases normalizeSubpath sub <;> rfl
+
+/-- **C07_front_shorthand_short.** A shorthand with fewer than three parts is an error. -/
+theorem C07_front_shorthand_short (host org : Str) (hh : IsShortHost host) (ho : '/' ∉ org) :
+    remoteFront (host ++ '/' :: org) = .error := by
+  have hit : shorthand (host ++ ['/']) (host ++ '/' :: org) = some none := by
+    unfold shorthand
+    have h1 : hasPrefix (host ++ '/' :: org) (host ++ ['/']) = true := by
+      unfold hasPrefix
+      rw [List.isPrefixOf_iff_prefix]
+      exact ⟨org, by simp⟩
+    have h2 : splitOn '/' (host ++ '/' :: org) = [host, org] := by
+      rw [splitOn_append, splitOn_of_noSep '/' host (shortHost_noSlash host hh).1,
+        splitOn_of_noSep '/' org ho]
+      rfl
+    simp only [h1, h2, Bool.not_true, Bool.false_eq_true, if_false]
+    rfl
+  have hexp : expandShorthands (host ++ '/' :: org) = none := by
+    unfold expandShorthands
+    simp only [Generated.shorthandPrefixes, List.foldl]
+    rcases hh with rfl | rfl
+    · have e1 : "github.com/".toList = "github.com".toList ++ ['/'] := by decide
+      rw [e1, hit]
+    · have e1 : "gitlab.com/".toList = "gitlab.com".toList ++ ['/'] := by decide
+      have h2 := shorthand_other "gitlab.com".toList org (Or.inr rfl) "github.com/" (by decide) (by decide)
+      rw [e1, hit, h2]
+  unfold remoteFront
+  rw [hexp]
+
+/-- closed instances of the above (evaluated by `decide`, independent of the general proofs).  `github.com/org/repo[/sub…]` and
+`gitlab.com/org/repo[/sub…]` are rewritten to `git::https://host/org/repo.git[//sub…]` before
+anything else happens; fewer than three parts is an error; `.git` is appended unless the
+repository part already ends in `git`. -/
+theorem C07_front_shorthand_github :
+    remoteFront "github.com/org/repo".toList =
+      .url "git".toList "https://github.com/org/repo.git".toList [] := by decide
+theorem C07_front_shorthand_gitlab :
+    remoteFront "gitlab.com/org/repo".toList =
+      .url "git".toList "https://gitlab.com/org/repo.git".toList [] := by decide
+theorem C07_front_shorthand_github_sub :
+    remoteFront "github.com/org/repo/sub/dir".toList =
+      .url "git".toList "https://github.com/org/repo.git".toList "sub/dir".toList := by decide
+theorem C07_front_shorthand_gitlab_sub :
+    remoteFront "gitlab.com/org/repo/sub/dir".toList =
+      .url "git".toList "https://gitlab.com/org/repo.git".toList "sub/dir".toList := by decide
+theorem C07_front_shorthand_dotgit :
+    remoteFront "github.com/org/repo.git".toList =
+      .url "git".toList "https://github.com/org/repo.git".toList [] := by decide
+theorem C07_front_shorthand_short_github : remoteFront "github.com/org".toList = .error := by decide
+theorem C07_front_shorthand_short_gitlab : remoteFront "gitlab.com/org".toList = .error := by decide
+/-- a sub-directory that climbs is rejected by the front end already -/
+theorem C07_front_shorthand_bad_sub : remoteFront "github.com/org/repo/../x".toList = .error := by decide
+
+/-! ## non-vacuity -/
+
+example : IsShortHost "gitlab.com".toList ∧ ShortPart "hashicorp".toList ∧ ShortPart "go-slug".toList := by
+  refine ⟨Or.inr rfl, ?_, ?_⟩ <;> unfold ShortPart <;> decide
+
+/-- what `url.Parse` returns for `https://example.com/repo.git?ref=v1` -/
+def exGitUrl : UrlRec := refUrl "https".toList "example.com".toList "/repo.git".toList
+  [("ref".toList, ["v1".toList])] "ref=v1".toList "archive=tgz&ref=v1".toList
+/-- what `url.Parse` returns for `HTTPS://example.com/m.zip?archive=tar.gz` -/
+def exArchUrl : UrlRec := refUrl "HTTPS".toList "example.com".toList "/m.zip".toList
+  [("archive".toList, ["tar.gz".toList])] "archive=tar.gz".toList "archive=tgz".toList
+
+example : parseRemote (fun _ => some exGitUrl) "git::https://example.com/repo.git//sub?ref=v1".toList
+    = some { sourceType := "git".toList, url := exGitUrl, subPath := "sub".toList } := by decide
+/-- upper-case type and scheme are accepted and stored lower-case; `archive=tar.gz` is stored as
+`archive=tgz` -/
+example : parseRemoteWith "GIT".toList [] (some { exGitUrl with scheme := "HTTPS".toList })
+    = some { sourceType := "git".toList, url := exGitUrl, subPath := [] } := by decide
+example : parseRemoteWith [] [] (some exArchUrl)
+    = some { sourceType := "https".toList,
+             url := { exArchUrl with scheme := "https".toList, rawQuery := "archive=tgz".toList },
+             subPath := [] } := by decide
+/-- rejected: plain `http`, user information, a second query argument for git, a checksum -/
+example : parseRemoteWith [] [] (some { exArchUrl with scheme := "http".toList }) = none := by decide
+example : parseRemoteWith "git".toList [] (some { exGitUrl with hasUser := true }) = none := by decide
+example : parseRemoteWith "git".toList []
+    (some { exGitUrl with query := [("ref".toList, ["v1".toList]), ("depth".toList, ["1".toList])] })
+    = none := by decide
+example : makeRemote "https".toList
+    { exArchUrl with
+      scheme := "https".toList
+      query := [("archive".toList, ["tgz".toList]), ("checksum".toList, ["x".toList])] } []
+    = none := by decide
+example : makeRemote "git".toList exGitUrl "a/../b".toList = none := by decide
+example : Grammar { sourceType := "git".toList, url := exGitUrl, subPath := "sub".toList } :=
+  (C07_sound_make _ _ _ _ (by decide : makeRemote "git".toList exGitUrl "sub".toList =
+    some { sourceType := "git".toList, url := exGitUrl, subPath := "sub".toList })).1.toGrammar
+
 end Slug
